@@ -35,16 +35,16 @@ IdT(D) == T(D, D, LAMBDA r, c : IF r = c THEN ROne ELSE RZero)
 \* the wires of l, in order, move to the right of the wires of r
 SwapT(l, r) == LET L == Size(l) R == Size(r) IN
   T(l \o r, r \o l, LAMBDA row, col : IF row \div R = col % L /\ row % R = col \div L THEN ROne ELSE RZero)
-Rev(s) == [k \in 1..Len(s) |-> s[Len(s) + 1 - k]]
+RevSeq(s) == [k \in 1..Len(s) |-> s[Len(s) + 1 - k]]
 \* digits of n in the mixed radix D (leftmost most significant)
 RECURSIVE Digits(_, _)
 Digits(n, D) == IF D = <<>> THEN <<>>
                 ELSE Digits(n \div D[Len(D)], SubSeq(D, 1, Len(D) - 1)) \o <<n % D[Len(D)]>>
 \* cups(t, t.r): t (x) reverse(t) -> (), the nested cups pairing wire m of t with its mirror image
-CupT(D) == T(D \o Rev(D), <<>>,
-             LAMBDA r, c : LET g == Digits(r, D \o Rev(D)) k == Len(D) IN
+CupT(D) == T(D \o RevSeq(D), <<>>,
+             LAMBDA r, c : LET g == Digits(r, D \o RevSeq(D)) k == Len(D) IN
                            IF \A m \in 1..k : g[m] = g[2 * k + 1 - m] THEN ROne ELSE RZero)
-CapT(D) == LET C == CupT(Rev(D)) IN [dom |-> <<>>, cod |-> C.dom, a |-> C.a]   \* () -> reverse(t) (x) t ... see CapOf
+CapT(D) == LET C == CupT(RevSeq(D)) IN [dom |-> <<>>, cod |-> C.dom, a |-> C.a]   \* () -> reverse(t) (x) t ... see CapOf
 \* caps(t, t.l) = dagger of cups: () -> t (x) reverse(t)
 CapOf(D) == ConjT(CupT(D))
 Whisker(l, A, r) == Kron(Kron(IdT(l), A), IdT(r))
